@@ -159,6 +159,9 @@ def run(tier):
     groups = accepted_groups(tier, chk)
     n_all = len(groups)
     nrun = 36 if tier == "quick" else 400
+    # members whose contested name is a reference name are left to C17: renaming an @reference renames a component (the
+    # statement's own exception), which this check's document comparison does not model
+    groups = [g for g in groups if not any(st["k"] == "decl" and st["s"].startswith("@") for stmts in g["prog"]["mods"].values() for st in stmts)]
     groups = pick_groups(groups, nrun, rng)
     jobs = [("q%d" % i, g, (i + 1 + common.seed()) % 4) for i, g in enumerate(groups)]
     with cf.ThreadPoolExecutor(max_workers=8) as ex:
